@@ -165,6 +165,8 @@ def generate(tier):
     for nv in (256, 257, 300):
         cases.append(build_many(nv, 'H' if nv != 257 else 'HP'))
     from .common import zoo_cases
+    from .common import unsized_cases
+    cases += unsized_cases('C05')
     cases += zoo_cases('C05', 'Hash', 'Debug, Clone, PartialEq', 'Debug, Clone, PartialEq, Hash',
                        '    for (i, (a, ta)) in vs.iter().enumerate() {\n'
                        '        let same_as_std = trace_of(a).unwrap() == trace_of(ta).unwrap();\n'
